@@ -8,6 +8,7 @@ CFG = {
     "callsw": ((-(1 << 31), (1 << 31) - 1), (-(1 << 63), (1 << 63) - 1), 4),
     "callsn": ((-(1 << 63), (1 << 63) - 1), (-(1 << 63), (1 << 63) - 1), 64),
     "callsne": ((-(1 << 63), (1 << 63) - 1), (-(1 << 63), (1 << 63) - 1), 64),
+    "callsd": ((-(1 << 63), (1 << 63) - 1), (-(1 << 63), (1 << 63) - 1), 64),
 }
 NSB, NFN = 3, 8
 
